@@ -128,6 +128,19 @@ class Routes:
             self.cmp("ChangeScalars(value only)", [o.a.value, o.b.value], [7.0, float(x0)], case, None, None, [7.0, x0])
             self.meta("ChangeScalars(value only)", o.a, c, qt, u, case)
             self.meta("ChangeScalars(value and unit)", o.b, c, qt, u, case)
+            # an object that came out of a copy with a *new amount* (in another unit) is re-expressed like any other: a
+            # copy chain v -> (x0, u) -> v tells x0 in v, not the amount the first object of the chain held
+            other = Scalar(c, 12345.678, v)
+            chain = other.CreateCopy(float(x0), u).CreateCopy(unit=v)
+            self.cmp("Scalar.CreateCopy(value,unit).CreateCopy(unit back)", chain.value, [r0], case, au, av, [x0])
+            self.meta("Scalar.CreateCopy(value,unit).CreateCopy(unit back)", chain, c, qt, v, case)
+            o = Owner()
+            o.a = Scalar(c, 12345.678, v)
+            ChangeScalars(o, a=(float(x0), u))
+            ChangeScalars(o, a=(None, v))
+            self.cmp("ChangeScalars(value,unit) then ChangeScalars(unit back)", o.a.value, [r0], case, au, av, [x0])
+            achain = Array(c, [12345.678] * len(xs), v).CreateCopy(list(xs), u).CreateCopy(unit=v)
+            self.cmp("Array.CreateCopy(values,unit).CreateCopy(unit back)", achain.GetValues(), ref, case, au, av, xs, list)
             q = ObtainQuantity(u, c)
             self.cmp("Quantity.ConvertScalarValue", q.ConvertScalarValue(float(x0), v), [r0], case, au, av, [x0])
             self.cmp("Quantity.Convert(float)", q.Convert(float(x0), v), [r0], case, au, av, [x0])
@@ -423,6 +436,26 @@ def _explicit_database(ctx, R):
                 R.bad("UnitSystemManager.ConvertScalarToCurrent(unit_database=)", "category/unit", case, {"got": [sc.GetUnit(), sc.GetCategory()]})
 
         R.guard("explicit database routes", case, go)
+
+    # the database object itself, asked directly while another one is the singleton of the moment: every kind of value goes
+    # through *its* table
+    import numpy as np
+
+    for u, v, xs in (("m", "cm", [2.0, -1.5, 0.0]), ("km", "cm", [0.5, 3.0, 7.0]), ("cm", "km", [1998.0, 1.0, -4.0])):
+        case = {"explicit database": True, "asked directly": True, "u": u, "v": v}
+        want = [db2.Convert("length", u, v, x) for x in xs]
+
+        def go2():
+            R.cmp("db2.Convert(list) while not the singleton", db2.Convert("length", u, v, list(xs)), want, case, None, None, xs)
+            R.cmp("db2.Convert(tuple) while not the singleton", db2.Convert("length", u, v, tuple(xs)), want, case, None, None, xs)
+            R.cmp("db2.Convert(ndarray) while not the singleton", db2.Convert("length", u, v, np.array(xs)), want, case, None, None, xs)
+            R.cmp("db2.Convert(int ndarray) while not the singleton", db2.Convert("length", u, v, np.array([2, 3, 5])), [db2.Convert("length", u, v, float(t)) for t in (2, 3, 5)], case, None, None, [2.0, 3.0, 5.0])
+            R.cmp("db2.Convert(category, ndarray) while not the singleton", db2.Convert("depth", u, v, np.array(xs)), want, case, None, None, xs)
+            r = m.ConvertToCurrent("length", u, np.array(xs), db2) if v == "cm" else None
+            if r is not None:
+                R.cmp("UnitSystemManager.ConvertToCurrent(ndarray, unit_database=)", r[0], want, case, None, None, xs)
+
+        R.guard("explicit database asked directly", case, go2)
 
 
 def _derived_own_unit(ctx, R, db, aff, rng, n):
